@@ -390,6 +390,52 @@ def _tpl_splice(text, slots, k, sub):
     return " ".join(" ".join(out).split()), [new_slots[i] for i in order]
 
 
+def _renorm_tpl(t):
+    """a template whose slots were just substituted: a whole-value slot that now holds Some(x) emits x, None emits nothing, and the tokens of
+    a quote! that now sits in a whole-value slot stand in its place"""
+    text, slots = t[2], list(t[3])
+    in_rep = set()
+    depth = 0
+    for tok in text.split(" "):
+        if tok == "#(":
+            depth += 1
+        elif depth and (tok.startswith(")") and tok.endswith("*")):
+            depth -= 1
+        elif depth:
+            m = re.fullmatch(r"#(\d+)", tok)
+            if m:
+                in_rep.add(int(m.group(1)))
+    changed = True
+    while changed:
+        changed = False
+        for k, sl in enumerate(slots):
+            if k in in_rep or ("#%d" % k) not in text.split(" "):
+                continue
+            if sl[0] == "call" and sl[1] == "Some" and len(sl[2]) == 1:
+                slots[k] = sl = sl[2][0]
+                changed = True
+            if sl == ("def", "v1::None"):
+                slots[k] = sl = ("tpl", "quote", "", [])
+                changed = True
+            if sl[0] == "tpl" and sl[1] == "quote" and text.split(" ").count("#%d" % k) == 1:
+                shift = {}
+                text, slots = _tpl_splice(text, slots, k, sl)
+                in_rep = {i - 1 if i > k else i for i in in_rep}
+                changed = True
+                break
+    # slots numbered in the order of their first use in the text (as a template written in one piece numbers them)
+    order = []
+    for tok in text.split(" "):
+        m = re.fullmatch(r"#(\d+)", tok)
+        if m and int(m.group(1)) not in order:
+            order.append(int(m.group(1)))
+    if len(order) == len(slots) and order != sorted(order):
+        ren = {old: new for new, old in enumerate(order)}
+        text = " ".join(("#%d" % ren[int(tok[1:])]) if re.fullmatch(r"#\d+", tok) else tok for tok in text.split(" "))
+        slots = [slots[i] for i in order]
+    return ("tpl", t[1], text, slots)
+
+
 def _tpl_over_match(t):
     """quote!( a #x b ) with x = match s { P => quote!(p), Q => quote!(q) } (as a whole value, not in a repetition) is
     match s { P => quote!(a p b), Q => quote!(a q b) }: the pieces chosen by one scrutinee are chosen once, around the template"""
@@ -1454,6 +1500,11 @@ def _renorm_call(n):
             and len(args[0][2]) == 2 and args[0][2][1][0] == "closure" and args[0][2][1][2] == 1:
         f, g = args[0][2][1], args[1]
         return ("call", "Iterator::map", [args[0][2][0], ("closure", g[1], 1, _shadow_safe(g[3], g[1], lambda x: _apply(f, ("cparam", g[1], 0)) if x == ("cparam", g[1], 0) else None))])
+    if name == "Option::map" and len(args) == 2 and args[1][0] == "closure" and args[1][2] == 1:
+        if args[0][0] == "call" and args[0][1] == "Some" and len(args[0][2]) == 1:
+            return ("call", "Some", [_apply(args[1], args[0][2][0])])
+        if args[0] == ("def", "v1::None"):
+            return args[0]
     if name in ("slice::len", "slice::is_empty") and len(args) == 1:
         base = args[0]
         while base[0] == "call" and base[1] in _LEN_PRESERVING and base[2] and not (base[1] == "Iterator::collect" and base[2][0][0] == "try"):
@@ -1530,6 +1581,8 @@ def rewrite(t, fn):
         n = (k, [(rewrite(c, fn), rewrite(v, fn)) for c, v in t[1]], rewrite(t[2], fn))
     elif k == "tpl":
         n = (k, t[1], t[2], [rewrite(a, fn) for a in t[3]])
+        if n[3] != t[3]:
+            n = _renorm_tpl(n)
     elif k == "fmt":
         n = (k, [p if p[0] == "lit" else (p[0], p[1], rewrite(p[2], fn)) for p in t[1]])
     elif k == "op":
@@ -3747,7 +3800,7 @@ def as_for_loop(n):
 def _is_struct_pat(p):
     """the pattern destructures a plain struct (irrefutable at this level), not an enum variant"""
     dk = str(p.get("dk", ""))
-    return dk == "Struct" or dk.startswith("Ctor(Struct") or dk.startswith("SelfTy") or dk.startswith("SelfCtor")
+    return dk == "Struct" or dk.startswith("Ctor(Struct") or dk.startswith("SelfTy") or dk.startswith("SelfCtor") or p.get("r") in ("selfty", "selfctor")
 
 
 def pat_repr(p):
